@@ -33,7 +33,7 @@ AddDrift(ds, what, ev, d) == IF Len(ds) < 12 THEN Append(ds, [l |-> l, x |-> exe
 
 Field(ev, f, dflt) == IF f \in DOMAIN ev THEN ev[f] ELSE dflt
 Rate == X.cfg.rate
-T10F == (10 * Rate) \div 1000                     \* onset deadline in frames
+T10F == (10 * Rate) \div 1000                     \* onset deadline in frames (the automaton uses whole windows: Min(T10F, 2 wf))
 TRelF == (X.cfg.rel * Rate) \div 1000             \* release time of the instrument in frames
 NativeMode == X.cfg.pcmr = 0
 MaxSeq(s) == IF s = <<>> THEN 0 ELSE LET m == CHOOSE i \in DOMAIN s : \A j \in DOMAIN s : s[j] <= s[i] IN s[m]
@@ -73,7 +73,7 @@ RunWin(W, wf, g, single, i, acc) ==
            judge == ~sounding \/ (NativeMode /\ ~X.over)
            snd == IF sounding /\ judge THEN WinSound(W, i, g, single, X.ilo, X.ihi) ELSE "open"
            idl == WinIdle(W[i], X.ilo, X.ihi)
-           r == IF judge THEN LcWindow(acc.st, snd, idl, X.age + (i - 1) * wf, T10F, TRelF) ELSE [st |-> acc.st, v |-> ""]
+           r == IF judge THEN LcWindow(acc.st, snd, idl, X.age + (i - 1) * wf, Min(T10F, 2 * wf), TRelF) ELSE [st |-> acc.st, v |-> ""]
        IN RunWin(W, wf, g, single, i + 1,
                  [st |-> r.st,
                   v |-> IF acc.v = "" THEN r.v ELSE acc.v,
